@@ -519,8 +519,9 @@ func checkHostile(r *Result, prop string) []Violation {
 			// the header must sit at a packet boundary: every earlier hostile chunk on this connection was a
 			// complete frame (otherwise the broker is rightly still reading the previous packet's body)
 			aligned := true
-			for j := c.ConnectOp + 1; j < i; j++ {
-				if oj := r.Plan.Ops[j]; oj.Kind == "raw" && (&Model{r: r}).connOfOp(j) == c {
+			for j := c.ConnectOp; j < i; j++ {
+				// (the CONNECT itself may be a mutated raw frame whose announced length exceeds its body)
+				if oj := r.Plan.Ops[j]; ((oj.Kind == "raw" && (&Model{r: r}).connOfOp(j) == c) || (j == c.ConnectOp && oj.Raw != nil)) && oj.Raw != nil {
 					if _, _, total, err := refcodec.Frame(oj.Raw); err != nil || total != len(oj.Raw) {
 						aligned = false
 					}
